@@ -180,9 +180,78 @@ def run_one(job):
         hist.cleanup_scratch()
 
 
+def long_wait(job):
+    """Timer-expiry dimension: a redo process that has given its token away while waiting for a target lock gets the
+    lock but finds no token, because the parent make's other jobs hold every token for `wait_s` seconds (the harness
+    took the parked token). It must simply keep waiting (its back-off timers keep firing) and finish when a token
+    comes back."""
+    from . import c08
+    v = job["long_wait"]
+    wait_s = v["wait_s"]
+    dof = {"l0.do": {"v": 1, "body": [["dep", 1, ["s0"]], ["work", 1], ["out", "stdout"]]},
+           "top0.do": {"v": 1, "body": [["dep", 1, ["l0"]], ["out", "stdout"]]}}
+    proj = {"dirs": [""], "sources": ["s0"], "dofiles": dof, "targets": ["l0", "top0"], "watch": [],
+            "layers": {"leaves": ["l0"], "mids": [], "tops": ["top0"]}}
+    env = {} if v["log"] else {"REDO_LOG": "0"}
+    case = {"project": proj,
+            "invs": [{"argv": ["redo", "-j1", "l0"], "cwd": "", "env": {"REDO_LOG": "0"}, "jobserver": None, "limit": 1},
+                     {"argv": [v["kind"], "top0"], "cwd": "", "env": env,
+                      "jobserver": {"tokens": 0, "held": 0, "high": True}, "limit": None}],
+            "schedule": [], "sopts": {"coincide": False, "token_games": True, "patient": True, "start_first": True}}
+    res = {"name": "long-wait/%s/log%d/%ds" % (v["kind"], v["log"], wait_s), "k": 0, "ret": "after-%ds" % wait_s,
+           "reads": 0, "stolen": 0, "problem": None, "long_wait": v}
+    r = sched.SchedRunner(case, tag="c09lw")
+    try:
+        r.start_inv(r.invs[0])
+        r.quiescent()
+        r.start_inv(r.invs[1])
+        t1 = time.time()
+        while time.time() - t1 < 15 and not any(sched.proc_state(q)[1] == "72" for q in r.live_pids()):
+            time.sleep(0.005)
+            r.pump()
+        res["stolen"] = r.jp.steal(1)
+        gates = [g for g in r.pending_gates() if g.target == "l0"]
+        if not res["stolen"] or not gates:
+            res["problem"] = "inconclusive"
+            return res
+        r.release_gate(gates[0])
+        t0 = time.time()
+        gave = False
+        while time.time() - t0 < wait_s + 25:
+            r.pump()
+            r.reap()
+            if r.invs[1].rc is not None:
+                break
+            if not gave and time.time() - t0 >= wait_s:
+                r.jp.give(1)
+                gave = True
+            time.sleep(0.1)
+        inv = r.invs[1]
+        text = r.inv_text(inv)
+        waited = time.time() - t0
+        ctx = {"argv": inv.spec["argv"], "rc": inv.rc, "text": text[-2000:], "waited_s": round(waited, 1),
+               "token_returned_after_s": wait_s, "scenario": res["name"]}
+        if inv.rc is None:
+            res["problem"] = "inconclusive"
+        elif inv.rc == 101 or "panicked at" in text:
+            res["problem"] = {"clause": "panic", "detail": ctx,
+                              "sig": {"symptom": hist.panic_sig(text), "tier": "long-token-wait"}}
+        elif inv.rc != 0 or BAD.search(text):
+            res["problem"] = {"clause": "nonzero", "detail": ctx,
+                              "sig": {"symptom": "exit %s" % inv.rc, "tier": "long-token-wait"}}
+        return res
+    finally:
+        r.close()
+        hist.cleanup_scratch()
+
+
+def run_any(job):
+    return long_wait(job) if "long_wait" in job else run_one(job)
+
+
 def run_case(case, tier):
     out = hist.Outcome()
-    res = run_one(case)
+    res = run_any(case)
     if res["problem"] == "inconclusive":
         raise runner.Inconclusive("token-race run inconclusive")
     if res["problem"]:
@@ -215,7 +284,16 @@ def explore(tier, seed, workers=16):
             for k in range(1, n + 1):
                 for ret in ("never", "later"):
                     jobs.append({"scn": s, "k": k, "ret": ret})
-        for res in pool.imap_unordered(run_one, jobs, chunksize=1):
+        # the long waits go first so that they overlap with everything else
+        lw = [{"long_wait": {"kind": k_, "log": lg, "wait_s": ws}}
+              for (k_, lg, ws) in ([("redo-ifchange", 0, 70), ("redo", 0, 70), ("redo-ifchange", 1, 70)]
+                                   if tier == "quick" else
+                                   [("redo-ifchange", 0, 70), ("redo", 0, 70), ("redo-ifchange", 1, 70),
+                                    ("redo", 1, 70), ("redo-ifchange", 0, 150), ("redo", 0, 150)])]
+        stats["long_token_waits"] = len(lw)
+        for res in pool.imap_unordered(run_any, lw + jobs, chunksize=1):
+            if "long_wait" in res:
+                stats["scenarios"][res["name"]] = {"token_reads": 0, "points": 1, "race_lost": 0}
             stats["runs"] += 1
             if res["problem"] == "inconclusive":
                 stats["inconclusive"] += 1
@@ -228,3 +306,15 @@ def explore(tier, seed, workers=16):
             if res["problem"]:
                 problems.append(res)
     return problems, stats, samples
+
+
+if __name__ == "__main__":
+    # run as a child process by c09.run_check so that the (mostly idle) long waits overlap with the other tiers
+    import json
+    import sys
+    from .. import main as _main
+    _main.sane_signals()
+    tier_, seed_, out_ = sys.argv[1], int(sys.argv[2]), sys.argv[3]
+    problems_, stats_, samples_ = explore(tier_, seed_, workers=int(sys.argv[4]) if len(sys.argv) > 4 else 8)
+    with open(out_, "w") as f:
+        json.dump({"problems": problems_, "stats": stats_, "samples": samples_}, f, default=str)
